@@ -135,5 +135,11 @@ func (b *batch) Commit(ctx context.Context) error {
 		}
 	}
 
-	return b.txn.Commit()
+	err := b.txn.Commit()
+	if errors.Is(err, badger.ErrConflict) {
+		// a key this batch has read was changed by a batch committed in the meantime,
+		// i.e. the condition it checked no longer holds
+		return storage.ErrCASFailed
+	}
+	return err
 }
